@@ -178,6 +178,7 @@ CoreSMTSolver::handleSat()
     // Theory propagate
     vec<LitLev> deds;
     deduceTheory(deds); // deds will be ordered by decision levels
+    if (decisionLevel() == 0 and deds.size() > 0) { OSMT_SIM_CLAUSE(&theory_handler, opensmt::verifsim::CK_TROOTTRAIL, trail.size() ? &trail[0] : nullptr, trail.size()); }
     for (int i = 0; i < deds.size(); i++) {
         Lit l = deds[i].l;
         if (deds[i].lev != decisionLevel()) {
